@@ -104,6 +104,8 @@ def run_family(ctx, profile, nprog, size=14, schedules=None, batch=250, clause_p
         verdicts = ctx.validate('Interp_Trace', slim, header={'progs': progs}, timeout=3000)
         ctx.cov['traces_validated_against_impl'] += len(progs)
         stats['programs'] += len(progs)
+        stats['programs_with_deftype_changes'] = stats.get('programs_with_deftype_changes', 0) + sum(
+            1 for q in progs if any(st.get('op') == 'DEFTYPE' for ln in q['lines'] for st in ln['s']))
         bad = {}
         for (i, clause) in verdicts:
             bad[owner[i - 1]] = (i, clause)
